@@ -326,7 +326,14 @@ func c12Unblock(r *verdict.Run, race bool) {
 				return
 			}
 			defer second.cn.Close()
-			for _, ww := range []*waiter{w, second} {
+			// (a third client blocks first and is served before anything else happens: the target and the second waiter
+			// have then joined a wait queue that existed already, and the target has become its head)
+			front, err := newWaiter(e)
+			if err != nil {
+				return
+			}
+			defer front.cn.Close()
+			for _, ww := range []*waiter{front, w, second} {
 				from := c.EventCount()
 				c.Ctl("watch blk:before-wait")
 				ww.issue(cmd, 15*time.Second)
@@ -336,6 +343,11 @@ func c12Unblock(r *verdict.Run, race bool) {
 				}
 				time.Sleep(5 * time.Millisecond)
 			}
+			s.do("RPUSH", "q", "el-0")
+			if !s.expectServed(front, "el-0", "unblock/first-waiter-not-served") {
+				return
+			}
+			s.do("DEL", "dst")
 			req := []string{"CLIENT", "UNBLOCK", strconv.FormatInt(w.id, 10)}
 			if sc.mode != "" {
 				req = append(req, sc.mode)
